@@ -11,6 +11,7 @@ of every schedule, so there are no infinite ones: "every fair schedule terminate
 -/
 import Compio.Lemmas.ChildIo
 import Compio.Model.SharedFd
+import Compio.Model.ChildCmd
 
 namespace Compio.ChildIo
 
@@ -444,3 +445,175 @@ example :
   decide
 
 end Compio.ChildIo
+
+/-! ## session 3: the reusable `Command` builder and the buffer-pool read path -/
+
+namespace Compio.ChildCmd
+
+open Compio.ChildIo
+open Compio.Gen.CommandShape
+
+/-- `spawn`, `status`, `output` do not touch the stdio configuration of the builder
+(over the table GENERATED from compio-process/src/lib.rs: a `self.0.stdout(Stdio::null())` added to
+`status` makes this false). -/
+theorem run_preserves_config (k : RunKind) (v : Sd) (b : BCfg) : effect k.calls v b = b := by
+  cases k <;> rfl
+
+/-- `stdin/stdout/stderr(cfg)` set exactly their own stream to the caller's value -/
+theorem set_sets_own_stream (s : Stream) (v : Sd) (b : BCfg) : effect (setCalls s) v b = setSpec b s v := by
+  cases s <;> rfl
+
+/-- no other method of `Command` touches the stdio configuration -/
+theorem no_other_stdio_mutator : otherStdioMutators = [] := rfl
+
+/-- **Reuse**: for EVERY sequence of configuration and run calls on one `Command`, every child is started with the
+configuration the user had set at that moment (earlier `status()/output()/spawn()` calls leave no trace). -/
+theorem reuse_gets_configured_stdio (b : BCfg) (l : List BOp) : runSeq b l = specSeq b l := by
+  induction l generalizing b with
+  | nil => rfl
+  | cons op r ih =>
+    cases op with
+    | set s v => simp only [runSeq, specSeq, set_sets_own_stream, ih]
+    | run k => simp only [runSeq, specSeq, run_preserves_config, ih]
+
+/-- in particular: stdout/stderr configured as pipes stay pipes across any number of runs: what a later
+`output()`/`spawn()` can collect is what that child wrote -/
+theorem piped_survives_runs (b : BCfg) (ks : List RunKind) (k : RunKind) (out : Bytes)
+    (h : b.sout = .piped) :
+    ∀ p ∈ runSeq b ((ks ++ [k]).map .run), captured p.2.sout out = some out := by
+  rw [reuse_gets_configured_stdio]
+  generalize ks ++ [k] = l
+  induction l with
+  | nil => simp [specSeq]
+  | cons a r ih =>
+    intro p hp
+    simp only [List.map, specSeq, List.mem_cons] at hp
+    rcases hp with rfl | hp
+    · simp [captured, h]
+    · exact ih p hp
+
+example : runSeq BCfg.fresh [.set .stdout .piped, .set .stderr .piped, .run .status, .run .output]
+    = [(.status, ⟨.inherit, .piped, .piped⟩), (.output, ⟨.inherit, .piped, .piped⟩)] := by decide
+
+/-! ### `read_managed` -/
+
+/-- an exhausted pool is an error, whatever is in the pipe — never end of file -/
+theorem pool_exhausted_is_error (src : Bytes) (k : Nat) : readManaged 0 src k = .busy := rfl
+
+/-- end of file is reported only when every byte has been handed out -/
+theorem managed_eof_only_at_end {free : Nat} {src : Bytes} {k : Nat} (h : readManaged free src k = .eof) :
+    src = [] ∧ 0 < free := by
+  unfold readManaged at h
+  split at h
+  · cases h
+  · split at h
+    · rename_i h0 h1; exact ⟨h1, by omega⟩
+    · cases h
+
+theorem flat_append (a b : List Bytes) : flat (a ++ b) = flat a ++ flat b := by
+  induction a with
+  | nil => rfl
+  | cons x r ih => simp [flat, List.foldr] at ih ⊢; exact ih
+
+theorem readManaged_buf {free : Nat} {src : Bytes} {k : Nat} {bs : Bytes} (h : readManaged free src k = .buf bs) :
+    bs = src.take k := by
+  unfold readManaged at h
+  split at h
+  · cases h
+  · split at h
+    · cases h
+    · cases h; rfl
+
+theorem mRead_conserves (pool : Nat) (s : MSt) (k : Nat) :
+    (mRead pool s k).out ++ flat (mRead pool s k).held ++ (mRead pool s k).src = s.out ++ flat s.held ++ s.src := by
+  unfold mRead
+  by_cases hd : s.done = true
+  · rw [if_pos hd]
+  · rw [if_neg hd]
+    cases hr : readManaged s.free s.src k with
+    | buf bs =>
+      have := readManaged_buf hr
+      subst this
+      have e : flat (s.held ++ [List.take k s.src]) = flat s.held ++ List.take k s.src := by
+        rw [flat_append]; simp [flat]
+      simp [e, List.append_assoc, List.take_append_drop]
+    | eof => simp [flat]
+    | busy => simp [flat]
+
+/-- conserved: consumed ++ held ++ still to come = the child's output -/
+theorem mStep_conserves (pool : Nat) (s : MSt) (e : MEv) :
+    (mStep pool s e).out ++ flat (mStep pool s e).held ++ (mStep pool s e).src = s.out ++ flat s.held ++ s.src := by
+  cases e with
+  | read k => exact mRead_conserves pool s k
+  | release j =>
+    simp only [mStep, mRelease]
+    have : flat s.held = flat (s.held.take j) ++ flat (s.held.drop j) := by
+      rw [← flat_append, List.take_append_drop]
+    rw [this]; simp [List.append_assoc]
+
+theorem mStep_done_src (pool : Nat) (s : MSt) (e : MEv) (h : s.done = true → s.src = [] ∧ s.held = []) :
+    (mStep pool s e).done = true → (mStep pool s e).src = [] ∧ (mStep pool s e).held = [] := by
+  cases e with
+  | read k =>
+    simp only [mStep]
+    unfold mRead
+    by_cases hd : s.done = true
+    · rw [if_pos hd]; exact h
+    · rw [if_neg hd]
+      cases hr : readManaged s.free s.src k with
+      | buf bs => intro h'; exact absurd h' hd
+      | eof => intro _; exact ⟨(managed_eof_only_at_end hr).1, rfl⟩
+      | busy => intro h'; exact absurd h' hd
+  | release j =>
+    simp only [mStep, mRelease]
+    intro hd
+    obtain ⟨h1, h2⟩ := h hd
+    simp [h1, h2]
+
+theorem mRun_inv (pool : Nat) (es : List MEv) (s : MSt) (h : s.done = true → s.src = [] ∧ s.held = []) :
+    (mRun pool s es).out ++ flat (mRun pool s es).held ++ (mRun pool s es).src = s.out ++ flat s.held ++ s.src ∧
+    ((mRun pool s es).done = true → (mRun pool s es).src = [] ∧ (mRun pool s es).held = []) := by
+  induction es generalizing s with
+  | nil => exact ⟨rfl, h⟩
+  | cons e r ih =>
+    simp only [mRun]
+    have := ih (mStep pool s e) (mStep_done_src pool s e h)
+    rw [mStep_conserves] at this
+    exact this
+
+/-- **Managed reads are complete**: for every pool size, every request size / transfer size and every pattern of
+holding and releasing buffers — including a reader that holds ALL buffers of the pool —, once the reader has seen end
+of file it has collected exactly the child's output, in order. -/
+theorem managed_read_complete (pool : Nat) (src : Bytes) (es : List MEv)
+    (hd : (mRun pool (mInit pool src) es).done = true) : (mRun pool (mInit pool src) es).out = src := by
+  have := mRun_inv pool es (mInit pool src) (by intro h; cases h)
+  obtain ⟨h1, h2⟩ := this
+  obtain ⟨h3, h4⟩ := h2 hd
+  rw [h3, h4] at h1
+  simpa [mInit, flat] using h1
+
+theorem mLoop_is_run (pool hold len : Nat) (f : Nat) (s : MSt) :
+    mLoop pool hold len f s = mRun pool s (mLoopEvs pool hold len f s) := by
+  induction f generalizing s with
+  | zero => rfl
+  | succ f ih =>
+    unfold mLoop mLoopEvs
+    split
+    · rfl
+    · simp only []
+      split
+      · simp only [mRun]; exact ih _
+      · simp only [mRun]; exact ih _
+
+/-- the driver's reader is one of those schedules: whatever it prints as complete output is the child's output -/
+theorem managed_loop_complete (pool hold len f : Nat) (src : Bytes)
+    (hd : (mLoop pool hold len f (mInit pool src)).done = true) : (mLoop pool hold len f (mInit pool src)).out = src := by
+  rw [mLoop_is_run] at hd ⊢
+  exact managed_read_complete pool src _ hd
+
+/-- non-vacuity: a reader holding all 2 buffers of the pool meets `busy` with bytes left and still finishes complete -/
+example :
+    let s := mLoop 2 9 1 20 (mInit 2 [1, 2, 3, 4, 5])
+    s.done = true ∧ s.out = [1, 2, 3, 4, 5] ∧ readManaged 0 [3, 4, 5] 1 = .busy := by decide
+
+end Compio.ChildCmd
